@@ -447,7 +447,7 @@ pub fn gen_session(seed: u64, index: u64, c: &Corpus) -> Session {
         keys.push(r.pick(&c.faults).clone());
     }
     // broken relatives of this session's own items: more error paths, some with two problems at once
-    for _ in 0..r.below(5) {
+    for _ in 0..(if hot { r.range(20, 80) } else { r.below(7) }) {
         let base = r.below(fault_lo.max(1));
         if let Some(b) = workload::breaker(&keys[base].clone(), &mut r) {
             keys.push(b);
